@@ -11,6 +11,8 @@
 #include <boost/shared_array.hpp>
 #include <boost/any.hpp>
 #include <ImathVec.h>
+#include <functional>
+#include <vector>
 #include "PyImathExport.h"
 #include "PyImathFixedVArray.h"
 
@@ -506,6 +508,18 @@ FixedVArray<T>::setitem_vector (PyObject* index, const FixedVArray<T>& data)
         boost::python::throw_error_already_set();
     }
 
+    // The source may be a view of this array's own storage (va[::-1] = va):
+    // read all of it before anything is overwritten.
+    if (sharesStorageWith (data))
+    {
+        std::vector<std::vector<T> > rows (sliceLength);
+        for (size_t i = 0; i < sliceLength; ++i)
+            rows[i] = data[i];
+        for (size_t i = 0; i < sliceLength; ++i)
+            (*this)[start + i*step] = rows[i];
+        return;
+    }
+
     if (_indices)
     {
         for (size_t i = 0; i < sliceLength; ++i)
@@ -520,6 +534,19 @@ FixedVArray<T>::setitem_vector (PyObject* index, const FixedVArray<T>& data)
             _ptr[(start + i*step)*_stride] = data[i];
         }
     }
+}
+
+template <class T>
+bool
+FixedVArray<T>::sharesStorageWith (const FixedVArray<T>& other) const
+{
+    // Conservative: compares the address ranges the two arrays span.
+    const std::vector<T>* b0 = _ptr;
+    const std::vector<T>* e0 = _ptr + (_indices ? _unmaskedLength : _length) * _stride;
+    const std::vector<T>* b1 = other._ptr;
+    const std::vector<T>* e1 = other._ptr + (other._indices ? other._unmaskedLength : other._length) * other._stride;
+    return std::less<const std::vector<T>*>() (b0, e1) &&
+           std::less<const std::vector<T>*>() (b1, e0);
 }
 
 template <class T>
@@ -538,6 +565,17 @@ FixedVArray<T>::setitem_vector_mask (const FixedArray<int>& mask,
     }
 
     size_t len = match_dimension(mask);
+
+    // As in setitem_vector: a source that is a view of this array's own
+    // storage is read before anything is overwritten.
+    if (sharesStorageWith (data))
+    {
+        FixedVArray<T> copy (data.len());
+        for (size_t i = 0, n = data.len(); i < n; ++i)
+            copy[i] = data[i];
+        setitem_vector_mask (mask, copy);
+        return;
+    }
 
     if ((size_t) data.len() == len)
     {
